@@ -42,7 +42,7 @@ fn case_strategy() -> BoxedStrategy<Case> {
         any::<u16>(),
         proptest::collection::vec((any::<u16>(), any::<u16>(), proptest::collection::vec(any::<bool>(), 2..8)), 1..4),
         proptest::collection::vec(any::<bool>(), 1..6),
-        prop::sample::select(vec![1u8, 1, 2, 4]),
+        prop::sample::select(vec![1u8, 1, 2, 3, 4]),
         prop_oneof![2 => Just(None), 1 => (any::<u16>(), any::<u16>()).prop_map(Some)],
         prop::bool::weighted(0.3),
     )
@@ -400,7 +400,7 @@ fn post(rt: &mut Runtime) {
     }
 }
 
-const RULE: &str = "generated: ancestor (all insertions present) with unique (k-1)-mers on both strands, 1-3 indels of length 1..min(10,k-1) at least 4k apart and 2k from the ends, carrier sets non-empty and proper over 3-8 samples, in 30% of the multi-indel cases the second indel removes the same sequence from the same carriers as the first (two loci, two records expected), the union of all derived samples re-checked: a (k-1)-mer may recur only at the same ancestor coordinates (rejections counted), samples randomly reverse-complemented, k in {11,15,21,31}, threads 1/2/4; in a third of the cases one of >= 4 samples is truncated >= 2k before an indel (neither form present: must be genotyped '.', run with -m 0.4). Oracle per record: before+REF+after (or its reverse complement) occurs in exactly the samples genotyped 0, before+ALT+after in exactly those genotyped 1, '.' iff neither or both; the record matches one planted indel by length and carriers, none twice, none unmatched; aggregate recall >= 90% (checked when >= 200 planted), also within each stratum of >= 150 planted indels (twin pairs, junction homology >= indel length, no junction homology, carried by exactly half of the samples, singleton carrier, length classes). Non-trivial: >= 1 indel reported.";
+const RULE: &str = "generated: ancestor (all insertions present) with unique (k-1)-mers on both strands, 1-3 indels of length 1..min(10,k-1) at least 4k apart and 2k from the ends, carrier sets non-empty and proper over 3-8 samples, in 30% of the multi-indel cases the second indel removes the same sequence from the same carriers as the first (two loci, two records expected), the union of all derived samples re-checked: a (k-1)-mer may recur only at the same ancestor coordinates (rejections counted), samples randomly reverse-complemented, k in {11,15,21,31}, threads 1-4; in a third of the cases one of >= 4 samples is truncated >= 2k before an indel (neither form present: must be genotyped '.', run with -m 0.4). Oracle per record: before+REF+after (or its reverse complement) occurs in exactly the samples genotyped 0, before+ALT+after in exactly those genotyped 1, '.' iff neither or both; the record matches one planted indel by length and carriers, none twice, none unmatched; aggregate recall >= 90% (checked when >= 200 planted), also within each stratum of >= 150 planted indels (twin pairs, junction homology >= indel length, no junction homology, carried by exactly half of the samples, singleton carrier, length classes). Non-trivial: >= 1 indel reported.";
 
 fn stages(tier: Tier) -> Vec<Box<dyn Stage>> {
     vec![gen_stage_show("indels", RULE, tier.pick(1600, 20_000), 150, case_strategy, check, |c| match materialise(c) {
